@@ -5,7 +5,7 @@ from xml.etree import ElementTree
 
 from .decodestate import DecodeState
 from .encodestate import EncodeState
-from .encoding import Encoding
+from .encoding import Encoding, get_string_encoding
 from .exceptions import odxassert, odxraise, odxrequire
 from .odxlink import OdxDocFragment, OdxLinkDatabase, OdxLinkId
 from .odxtypes import AtomicOdxType, DataType, odxstr_to_bool
@@ -87,8 +87,9 @@ class DiagCodedType:
             if not isinstance(internal_value, str):
                 odxraise()
 
-            # TODO: Handle different encodings
-            byte_length = len(bytes(internal_value, "utf-8"))
+            str_encoding = get_string_encoding(self.base_data_type, self.base_type_encoding,
+                                               self.is_highlow_byte_order)
+            byte_length = len(bytes(internal_value, str_encoding or "utf-8"))
         elif self.base_data_type == DataType.A_UNICODE2STRING:
             if not isinstance(internal_value, str):
                 odxraise()
